@@ -99,7 +99,7 @@ def iterators(ctx, rule):
     if not sname or not bname:
         # one iterator parametrised by the flavour: there are no twins to compare; str/bytes independence is
         # decided by the model table (R5)
-        ctx.undecided(rule, "urls_from_html has no str / bytes twin iterators to compare (see R5)")
+        ctx.defer(rule, "urls_from_html has no str / bytes twin iterators to compare (see R5)")
         return
     fs = [s for s in um.tree.body if isinstance(s, ast.FunctionDef) and s.name == sname[0]][0]
     fb = [s for s in um.tree.body if isinstance(s, ast.FunctionDef) and s.name == bname[0]][0]
